@@ -71,6 +71,8 @@ pub struct Session {
     pub touched: Vec<(u32, u32)>,
     pub steps: u64,
     pub compared_cells: u64,
+    /// the model natively swaps the colour order bit (external model quirk)
+    pub madctl_bgr_quirk: bool,
     salt: u64,
 }
 
@@ -129,6 +131,7 @@ impl Session {
                     touched: Vec::new(),
                     steps: 0,
                     compared_cells: 0,
+                    madctl_bgr_quirk: cfg.model == crate::rig::ModelId::ExtQuirk,
                     salt: 0x5EED,
                 }))
             }
@@ -209,6 +212,19 @@ impl Session {
         let ok = result == CallResult::Ok;
         if ok {
             self.apply_ref(op);
+            if let Op::SetOrientation(o) = op {
+                // the controller must now hold the encoding of (configured colour order, this
+                // orientation, configured refresh order)
+                let want = self.want_madctl(*o);
+                if self.panel.madctl != want {
+                    findings.push(Finding::Api(format!(
+                        "address-mode: controller holds {:#04x} after set_orientation({}), expected {:#04x}",
+                        self.panel.madctl,
+                        o.name(),
+                        want
+                    )));
+                }
+            }
             if op.is_draw() {
                 if let Some(f) = framing(&log, op, &self.panel) {
                     findings.push(f);
@@ -284,6 +300,11 @@ impl Session {
             }
             Op::ScrollRegion(..) | Op::ScrollOffset(_) | Op::Tearing(_) => {}
         }
+    }
+
+    /// address mode the controller must hold for orientation `o` on this display
+    pub fn want_madctl(&self, o: Ori) -> u8 {
+        crate::spec::madctl(self.cfg.bgr != self.madctl_bgr_quirk, o, self.cfg.refresh & 1 != 0, self.cfg.refresh & 2 != 0)
     }
 
     pub fn current_ori(&self) -> Ori {
